@@ -8,7 +8,7 @@
    is a uint64.  Sizes, keys, scopes, payloads and histories are unrestricted. *)
 From Coq Require Import List NArith ZArith Bool Sorting.Sorted.
 From K.Model Require Import C07.
-From K.Proof Require LruStore C07.
+From K.Proof Require LruStore LruStore_cells C07.
 Import ListNotations.
 Local Open Scope N_scope.
 
@@ -128,6 +128,20 @@ Theorem C07_metadata_last_write : forall fx c o k s b,
 Proof. exact (Proof.LruStore.md_frame Disk). Qed.
 Print Assumptions C07_metadata_last_write.
 
+(* the same over histories: after a successful SetMetadata of (k, s) := v, whatever happens next
+   (evictions, bans, re-opens, other keys, other suffixes ...), as long as no operation writes (k, s)
+   a read returns v for as long as that incarnation of k is in the store *)
+Theorem C07_metadata_last_write_history : forall fx cap ops1 k sc s v ops2,
+  let c0 := fst (crun Disk fx (cinit cap) ops1) in
+  snd (cstep Disk fx c0 (SetMd k sc s v)) = OOk ->
+  forallb (fun o => negb (md_writes o k s)) ops2 = true ->
+  let c1 := fst (cstep Disk fx c0 (SetMd k sc s v)) in
+  let c2 := fst (crun Disk fx c1 ops2) in
+  incarnation (c_core c2) k = incarnation (c_core c1) k ->
+  snd (cstep Disk fx c2 (GetMd k SAny s)) = OBytes v.
+Proof. exact (Proof.LruStore_cells.md_last_write_history Disk). Qed.
+Print Assumptions C07_metadata_last_write_history.
+
 (* ---- non-movable metadata disappears on completion (movable metadata stays) *)
 Theorem C07_immovable_gone_on_complete : forall fx c k b s,
   assoc k (k_blobs (c_core c)) = Some b -> b_complete b = false ->
@@ -160,6 +174,17 @@ Example C07_nonvacuous_clean :
   [(OClean 40 None, [1; 3]); (OClean 20 None, [1])] /\
   snd (cstep Disk true c (Clean 30 true [2; 3; 1; 0])) = OClean 40 None /\
   snd (cstep Disk true c (Clean 30 false [2; 3; 1; 0])) = OClean 20 None.
+Proof. vm_compute. repeat split; reflexivity. Qed.
+
+Example C07_nonvacuous_metadata_history :
+  let ops1 := [CreateW 0 40 []; CreateW 1 40 []] in
+  let ops2 := [MarkComplete 0; SetMd 0 SAny 3 [5]; Ban 0 SAny; OpenRead 1 SAny; MarkComplete 1; CreateW 2 40 []; Unban 0 SAny] in
+  let c1 := fst (cstep Disk true (reach_c 100 ops1) (SetMd 0 SIncomplete 1 [9; 9])) in
+  let c2 := fst (crun Disk true c1 ops2) in
+  snd (cstep Disk true (reach_c 100 ops1) (SetMd 0 SIncomplete 1 [9; 9])) = OOk /\
+  forallb (fun o => negb (md_writes o 0 1)) ops2 = true /\
+  incarnation (c_core c2) 0 = incarnation (c_core c1) 0 /\ incarnation (c_core c2) 1 = None /\
+  snd (cstep Disk true c2 (GetMd 0 SAny 1)) = OBytes [9; 9].
 Proof. vm_compute. repeat split; reflexivity. Qed.
 
 (* ---- executable form used on observed traces *)
